@@ -122,4 +122,4 @@ func WithDeadline(parent Context, t time.Time) (Context, CancelFunc) {
 }
 
 func WithValue(parent Context, key, val any) Context { return context.WithValue(parent, key, val) }
-func Cause(c Context) error                           { return c.Err() }
+func Cause(c Context) error                          { return c.Err() }
